@@ -25,8 +25,8 @@ def potrfLines (A : View) (upper : Bool) (info : Int) : List String :=
   let c := potrfCall uplo A
   let n := A.size
   let r := potrfOrder n info
-  -- the property: "the leading block up to the first non-positive minor"
-  let lead := A.paren [Arg.rng 0 r, Arg.rng 0 r]
+  -- the view the adaptor returns: "the leading block up to the first non-positive minor"
+  let lead := potrfResult A info
   let idxs := boxIndices lead.exts
   (if potrfAsserts A then [] else ["ASSERT potrf"]) ++
   [ s!"potrf {c.uplo} {c.n} {c.a} {c.lda}",
